@@ -108,14 +108,26 @@ def check_entry(case) -> Result:
                    entry=name, tabulated=e['mono'], got=_j(lib))
     # inside a peptide: one-residue peptide carrying the modification
     if gen._bal(name) and '|' not in name and '#' not in name:
-        base = pt.mass('K')
-        for kind, s in sp[:3]:
-            o = outcome(lambda s=s: pt.mass(f'K[{s}]') - base)
-            ref = outcome(lambda s=s: pt.mod_mass(s))
-            if not _same(o, ref, 1e-6):
-                r.fail('the mass inside a peptide is the mass of the modification', f'C10/{db}/in-peptide/{kind}', entry=name,
-                       spelling=s, got=_j(o), expected=_j(ref))
-                break
+        for mono in (True, False):
+            base = pt.mass('K', monoisotopic=mono)
+            tab = e['mono'] if mono else e['avg']
+            for kind, s in sp:
+                o = outcome(lambda s=s: pt.mass(f'K[{s}]', monoisotopic=mono) - base)
+                ref = outcome(lambda s=s: pt.mod_mass(s, monoisotopic=mono))
+                if not _same(o, ref, 1e-6) or (o[0] == 'ok' and tab is not None and abs(o[1] - tab) > 1e-5):
+                    r.fail('the mass inside a peptide is the (tabulated) mass of the modification',
+                           f'C10/{db}/in-peptide/{kind}' + ('' if mono else '/average'), entry=name, spelling=s, got=_j(o), expected=_j(ref),
+                           tabulated=tab)
+                    break
+        # composition inside a peptide
+        if e.get('comp') is not None:
+            base_c = pt.comp('K')
+            for kind, s in sp[:3]:
+                o = outcome(lambda s=s: (lambda c: {k: c.get(k, 0) - base_c.get(k, 0) for k in set(c) | set(base_c) if c.get(k, 0) - base_c.get(k, 0)})(pt.comp(f'K[{s}]')))
+                if not _same(o, ('ok', e['comp'])):
+                    r.fail('the composition inside a peptide is the tabulated composition of the modification', f'C10/{db}/in-peptide-comp/{kind}',
+                           entry=name, spelling=s, got=_j(o), tabulated=e['comp'])
+                    break
     return r
 
 
@@ -131,6 +143,28 @@ def _check_mono(pt, r, e):
                     r.fail('names and synonyms of a monosaccharide give the tabulated mass', 'C10/mono/mass', entry=e['name'], spelling=s,
                            mono=mono, got=_j(o), expected=tab * mult)
                     return r
+    # the accession spelling (Glycan:<id>, documented) denotes the same entry
+    for s in (f'Glycan:{e["id"]}', f'glycan:{e["id"]}'):
+        for mono in (True, False):
+            tab = e['mono'] if mono else e['avg']
+            o = outcome(lambda s=s: pt.mod_mass(s, monoisotopic=mono))
+            if o[0] != 'ok' or abs(o[1] - tab) > 1e-5:
+                r.fail('the accession of a monosaccharide gives the tabulated mass', 'C10/mono/mass/accession', entry=e['name'], spelling=s,
+                       mono=mono, got=_j(o), expected=tab)
+                return r
+        o = outcome(lambda s=s: pt.mod_comp(s))
+        if not _same(o, ('ok', e['comp'])):
+            r.fail('the accession of a monosaccharide gives the tabulated composition', 'C10/mono/comp/accession', entry=e['name'], spelling=s,
+                   got=_j(o), expected=e['comp'])
+            return r
+    for mono in (True, False):
+        base = pt.mass('N', monoisotopic=mono)
+        for nm in names[:3]:
+            o = outcome(lambda nm=nm: pt.mass(f'N[Glycan:{nm}]', monoisotopic=mono) - base)
+            if o[0] != 'ok' or abs(o[1] - (e['mono'] if mono else e['avg'])) > 1e-5:
+                r.fail('the mass inside a peptide is the tabulated mass of the monosaccharide', 'C10/mono/in-peptide' + ('' if mono else '/average'),
+                       entry=e['name'], spelling=nm, got=_j(o))
+                return r
     for nm in names:
         o = outcome(lambda nm=nm: pt.mod_comp(f'Glycan:{nm}'))
         if not _same(o, ('ok', e['comp'])):
